@@ -162,6 +162,7 @@ pool! {
     NotSync: types::NotSync => "crate::types::NotSync", copy=false, clone=true, serde=false, user=true;
     RawPtr: types::RawPtr => "crate::types::RawPtr", copy=true, clone=true, serde=false, user=true;
     SyncNotSend: types::SyncNotSend => "crate::types::SyncNotSend", copy=true, clone=true, serde=false, user=true;
+    NoSuchType: u64 => "crate::types::NoSuchTypeAnywhere", copy=true, clone=true, serde=true, user=true;
 }
 
 // --------------------------------------------------------------------------
